@@ -361,6 +361,39 @@ theorem c04_classifier_constants_table :
     Gen.Metabolism.chain = [("le", (1, 10), "starving"), ("le", (3, 10), "conserving"), ("ge", (9, 10), "feasting")] ∧
     Gen.Metabolism.elseState = "normal" := by decide
 
+/-- **The division guards of `_update_state` are those of the source.**  Which of the two true divisions of
+    `_update_state` run only with a non-zero capacity is read from the `if` tests enclosing them in the source on every
+    run (`Operon.Gen.Metabolism.updGuards`, extractor E5-metabolism; an unrecognised shape is `none`): both are guarded. -/
+theorem c04_update_state_guards_table : Gen.Metabolism.updGuards = some (true, true) := by decide
+
+/-- … and the model's `_update_state` (`updateStateO`, on which "no operation raises" rests) is the guard-parametric
+    function at exactly the guards read from the source: removing a guard from the source (re-introducing the fixed
+    defect C04-zero-capacity-zerodivision) changes `updGuards` and breaks this theorem and the table by name. -/
+theorem c04_update_state_is_the_guarded_source (obs : Obs) (s : Store) :
+    updateStateG (Gen.Metabolism.updGuards.getD (false, false)) cls obs s = updateStateO cls obs s := by
+  rw [c04_update_state_guards_table]
+  unfold updateStateG updateStateO
+  simp
+
+/-- **Witness for the unguarded shape** (the tree before fix 1c68cff: `if self._debt > 0:` without `and total_capacity >
+    0`): on a zero-capacity store that owes 3 units `_update_state` raises `ZeroDivisionError` — with the debt already
+    booked by the caller.  So "no operation raises" genuinely depends on the guards. -/
+theorem c04_unguarded_debt_division_raises_witness :
+    retUnit (updateStateG (true, false) (fun _ _ => .normal) Obs.silent
+      { Store.fresh 0 0 0 5 1 10 with debt := 3 }).2 = .raised .zeroDivision ∧
+    retUnit (updateStateG (false, true) (fun _ _ => .normal) Obs.silent (Store.fresh 0 0 0 0 1 10)).2 = .raised .zeroDivision ∧
+    retUnit (updateStateG (true, true) (fun _ _ => .normal) Obs.silent
+      { Store.fresh 0 0 0 5 1 10 with debt := 3 }).2 = .none := by
+  decide
+
+/-- **Console output cannot interrupt an operation** (default configuration `silent=False`): evaluated on the real
+    class on every run — every message-producing path of a loud store, on an ASCII console, a closed console and a
+    UTF-8 console with a lone surrogate in the caller's operation label — no call raises
+    (`Operon.Gen.Metabolism.consoleFailuresEscape`; fixed defect C04-console-print-interrupts-ledger).  This is a
+    complete evaluation of a finite script, not a proof about consoles; it is what justifies that the model has no
+    console and that the translator reads `print(...)` as a no-op. -/
+theorem c04_console_is_best_effort_table : Gen.Metabolism.consoleFailuresEscape = false := by decide
+
 /-! ### Non-vacuity: concrete stores and histories meeting the hypotheses -/
 
 /-- a classifier to compute with -/
